@@ -446,6 +446,9 @@ static void connected(bool withResult, bool resultIsError, int smFixed = -1, int
         checkRoster(m.d, ref);
         return;
     }
+    // presences that arrived between the roster request and its answer: an arbitrary table (seed C12-4: the result handler wiped it)
+    RefPresence rp2; symPresences(m.d, rp2, 1);
+    const bool hadPresence2 = refHasPresence(rp2, pb, pr);
     SymIq q; symRosterIq(q, false, 2);
     // RFC 6121 2.1.4: a roster result lists the contacts; subscription='remove' only occurs in pushes
     vp_assume(q.item[0].type != QXmppRosterIq::Item::Remove && q.item[1].type != QXmppRosterIq::Item::Remove);
@@ -456,6 +459,7 @@ static void connected(bool withResult, bool resultIsError, int smFixed = -1, int
     vp_assert(m.d->isRosterReceived, "C12 the full roster result marks the roster as received");
     vp_assert(g_nsig == 1 && g_sigKind[0] == SigRosterReceived, "C12 the full roster result is announced once (rosterReceived)");
     vp_assert(g_nsent == 0 && g_niq == 1, "C12 the full roster result is not answered");
+    vp_assert(viewHasPresence(m.d, pb, pr) == hadPresence2, "C12 the full roster result leaves the presence table as it is (resources stay listed iff their latest presence was available)");
     checkRoster(m.d, ref);
 }
 extern "C" void h_connected() { connected(false, false); }
